@@ -99,6 +99,23 @@ def _verify(name, h, secret, m, ctx):
     return call(h.verify, secret, m, **ctx)
 
 
+_ROUTES = {}
+
+
+def _other_routes(name, h):
+    if name not in _ROUTES:
+        from passlib.context import CryptContext
+
+        routes = []
+        for via, mk in (("using(relaxed=True)", lambda: h.using(relaxed=True)), ("using()", lambda: h.using()), ("CryptContext", lambda: CryptContext(schemes=[h]).handler())):
+            try:
+                routes.append((via, mk()))
+            except Exception:  # noqa: BLE001  (wrappers / static hashers without using(): route not available)
+                pass
+        _ROUTES[name] = routes
+    return _ROUTES[name]
+
+
 def _digest_view(name, text):
     if name == "mssql2000" and isinstance(text, str):
         return text[:14].upper() + text[54:].upper()  # 0x0100 + salt + second (upper-case) digest half
@@ -144,6 +161,21 @@ def o_mutant(rec: Recorder, case, soft=False):
         rec.count("cost_skipped")
         return
     st, r = _verify(name, h, secret, m, ctx)
+    if st == "err" and name != "scram":
+        # what the hasher refuses as malformed must not verify through a configured copy of it or through a CryptContext either
+        # (both parse with the same strictness: relaxed=True is documented to affect the settings of NEW hashes only)
+        for via, hc in _other_routes(name, h):
+            rec.count(f"route:{via}")
+            if hasattr(h, "from_string") and hasattr(hc, "from_string"):
+                # compared at the parser (no digest is computed: a wrongly accepted cost field could be astronomically expensive)
+                if call(h.from_string, m)[0] == "err" and call(hc.from_string, m)[0] == "ok":
+                    rec.fail(f"C08/altered-accepted/{name}/{via}", f"{name}: a string the hasher itself refuses as malformed is parsed as a valid hash by {via}", "mutant", case, "parsed", repr(r), soft=soft)
+                    return
+            elif "rounds" not in fixed_settings(name, 0):
+                st2, r2 = call(hc.verify, secret, m, **ctx)
+                if st2 == "ok" and r2 is True:
+                    rec.fail(f"C08/altered-accepted/{name}/{via}", f"{name}: a string the hasher itself refuses as malformed verifies the original password through {via}", "mutant", case, True, repr(r), soft=soft)
+                    return
     if st == "err":
         if not isinstance(r, DOCUMENTED_ERRORS):
             rec.fail(f"C08/internal-error/{name}/verify/{type(r).__name__}@{exc_site(r)}", f"{name}.verify raised {type(r).__name__} (internal error) on a malformed string", "mutant", case, repr(r), "ValueError/TypeError", soft=soft)
